@@ -564,4 +564,13 @@ def r9_conditionals_open_no_scope(ctx: Ctx) -> None:
     r1_if(ctx)
 
 
-RULES = [r1_generator_pairing, r2_replay_agreement, r3_lookup_chain, r4_export, r5_who_may_write, r6_macro_arguments_in_caller_scope, r7_symbol_values_stored_verbatim, r8_names_lex_alike_everywhere, r9_conditionals_open_no_scope, rb_binding_agreement, rm_no_process_lifetime_results, ru_names_bound]
+def r10_spliced_blocks_and_scope_replay(ctx: Ctx) -> None:
+    """a code-block parameter is found through the scope chain like any other name (C09.R3); the label pass and the emit pass start from the same scope state (C02.R3)"""
+    from .c09 import r3_per_application_scope as _c09_r3_per_application_scope
+    from .c02 import r3_traversal_agreement as _c02_r3_traversal_agreement
+
+    _c09_r3_per_application_scope(ctx)
+    _c02_r3_traversal_agreement(ctx)
+
+
+RULES = [r1_generator_pairing, r2_replay_agreement, r3_lookup_chain, r4_export, r5_who_may_write, r6_macro_arguments_in_caller_scope, r7_symbol_values_stored_verbatim, r8_names_lex_alike_everywhere, r9_conditionals_open_no_scope, r10_spliced_blocks_and_scope_replay, rb_binding_agreement, rm_no_process_lifetime_results, ru_names_bound]
